@@ -33,6 +33,9 @@ func (h *Hist) genConfigs() {
 	if focus == "fleet" && r.chance(70) {
 		ng = 1 // fleet scale-ups take seconds of real time: keep taint stamps of other groups out of the same scan
 	}
+	if fleetFail {
+		ng = r.pickI(2, 2, 3)
+	}
 	useDefault := ng > 1 && r.chance(40)
 	for i := 0; i < ng; i++ {
 		name := fmt.Sprintf("g%d", i)
@@ -970,6 +973,14 @@ func (h *Hist) runHistory(scans int) (bool, string) {
 		for e := 0; e < ne; e++ {
 			h.stats["ev:"+h.randomEvent()]++
 		}
+		if fleetFail && h.r.chance(70) {
+			for gi := range h.cfgs {
+				if h.r.chance(80) {
+					h.setLoad(gi, h.cfgs[gi].ScaleUpThresholdPercent+h.r.rng(20, 120), 0)
+				}
+			}
+			h.stats["ev:all-groups-loaded"]++
+		}
 		if !h.r.chance(12) { // otherwise: the informer cache is stale for this scan
 			h.syncListers()
 		} else {
@@ -1024,8 +1035,17 @@ func (h *Hist) runHistory(scans int) (bool, string) {
 		if focus == "fleet" {
 			h.aws.ec2.fleetSplit = h.r.pickI(1, 1, 2)
 			h.aws.ec2.fleetMode = h.r.pick("ok", "ok", "ok", "ok", "some+err", "none+err", "none", "short+err")
+			if fleetFail {
+				// a failure that counts against the group is one after instances were acquired: the attach is refused (at once)
+				h.aws.ec2.fleetMode = h.r.pick("ok", "ok", "ok", "ok", "none+err", "none", "short+err")
+				h.aws.failAttach = h.r.chance(65)
+			}
 			h.aws.ec2.notReady = map[int]bool{}
-			switch h.r.intn(6) {
+			nr := h.r.intn(6)
+			if fleetFail {
+				nr = 2 + h.r.intn(20) // waiting for readiness costs seconds: rare here
+			}
+			switch nr {
 			case 0:
 				h.aws.ec2.notReady[0] = true
 			case 1:
@@ -1083,6 +1103,9 @@ func (h *Hist) runHistory(scans int) (bool, string) {
 var slowOK = false
 var realCtorAlways = false
 var focus = ""
+
+// fleetFail: the "fleetfail" variant of the fleet focus (see main.go)
+var fleetFail = false
 
 // forceEffect: the force-removal taint is put on by operators: any effect, or none
 func forceEffect(r *Rng) string {
